@@ -68,7 +68,7 @@ def mk_view(x, kind, p):
     if kind == "rev":
         return x[::-1]
     if kind == "col":
-        return x[:, p % x.shape[1]] if x.ndim == 2 else None
+        return x[:, p % x.shape[1]] if x.ndim == 2 and x.shape[1] else None
     if kind == "row":
         return x[p % n] if n and x.ndim >= 1 and x.ndim == 2 else None
     if kind == "T":
